@@ -122,12 +122,24 @@ class Executor2(Executor):
             return z3.Or(*[self.py_eq(item, x) for x in container.t]) if container.t else z3.BoolVal(False)
         return Executor.contains(self, st, container, item, ln)
 
+    def ev_Yield(self, e, st):
+        """`yield v` inside a generator function under contract: the value goes out, whatever is sent in comes back.
+        (What the consumer does between two resumptions is not this function's business; obligations on the generator are per
+        resumption, and its loops need a measure like any other.)"""
+        if not self.lenient:
+            raise Unsupported("yield at line %d" % e.lineno)
+        if e.value is not None:
+            self.ev(e.value, st)
+        return self.opaque()
+
     def ev_List(self, e, st):
         return SV("list_lit", tuple(self.ev(x, st) for x in e.elts))
 
     def binop(self, st, op, a, b, ln):
         if a.kind == "opaque" or b.kind == "opaque":
             return self.opaque()
+        if self.lenient and not self.spec and (a.kind == "str" or b.kind == "str"):
+            return self.opaque()   # string building (messages): no modelled content
         return Executor.binop(self, st, op, a, b, ln)
 
     def call(self, st, f, args, kw, ln):
@@ -300,7 +312,7 @@ class Executor2(Executor):
         return Executor._field_sort(self, f)
 
     def assign_subscript(self, st, target, v, ln):
-        base = self.ev(target.value, st)
+        base = self.as_container(st, self.ev(target.value, st), ln)
         if base.kind == "lenlist":
             idx = self.ev(target.slice, st)
             if idx.kind == "int":
@@ -375,6 +387,8 @@ class Executor2(Executor):
     # ------------------------------------------------------------------ raise: classify
     def st_Raise(self, s, st):
         exc = "Exception"
+        if s.exc is None and getattr(self, "handling", None):
+            exc = self.handling[-1]   # bare `raise` inside a handler re-raises what the handler caught
         if s.exc is not None:
             src = ast.unparse(s.exc)
             if isinstance(s.exc, ast.Call):
@@ -399,6 +413,21 @@ class Executor2(Executor):
 
     # ------------------------------------------------------------------ may_raise on contracts
     def apply_contract(self, st, c, selfv, args, kw, ln):
+        if getattr(c, "decreases", None) and getattr(self.cur, "decreases", None):
+            # well-founded recursion: the callee's measure at the call < the caller's measure at its own entry
+            m, ci, fn = frontend.resolve(c.target)
+            is_static = ci is not None and fn.name in ci.static
+            env = self.bind_params(fn, None if (ci is None or is_static) else selfv, args, kw, st)
+            for p_, ty in c.types.items():
+                if p_ in env and p_ != "return":
+                    f = parse_type(ty)
+                    if f.kind == "ref" and env[p_].kind == "ref" and env[p_].cls is None:
+                        env[p_] = SV("ref", env[p_].t, cls=f.cls)
+            at_call = st.copy()
+            at_call.env = env
+            v1 = self.spec_value(c.decreases, at_call)
+            v0 = self.spec_value(self.cur.decreases, self.entry_state)
+            self._ob(st, z3.And(v1.t < v0.t, v1.t >= 0), "call[%s]@L%s.measure-decreases[%s]" % (c.name, ln, c.decreases), "termination")
         res = Executor.apply_contract(self, st, c, selfv, args, kw, ln)
         for exc in getattr(c, "may_raise", ()) or ():
             x = st.copy()
@@ -424,6 +453,7 @@ class Executor2(Executor):
                 self.typeerror_caught -= 1
         out_exits = []
         handler_states = []
+        caught = []
         for x in exits:
             if x.kind != "raise":
                 out_exits.append(x)
@@ -433,14 +463,19 @@ class Executor2(Executor):
                 out_exits.append(x)
             else:
                 handler_states.append((h, x.state))
+                caught.append(x.exc)
         if s.orelse:
             normal, x2 = self.exec_block(s.orelse, normal)
             out_exits.extend(x2)
         res = list(normal)
-        for h, hs in handler_states:
+        for (h, hs), hx in zip(handler_states, caught):
             if h.name:
                 hs.env[h.name] = self.opaque() if self.lenient else SV("ref", z3.Const("exc!%d" % h.lineno, Ref), cls="Exception", x="nonnull")
-            n2, x2 = self.exec_block(h.body, [hs])
+            self.handling = getattr(self, "handling", []) + [hx]
+            try:
+                n2, x2 = self.exec_block(h.body, [hs])
+            finally:
+                self.handling = self.handling[:-1]
             res.extend(n2)
             out_exits.extend(x2)
         return res, out_exits
@@ -625,6 +660,10 @@ class Executor2(Executor):
                 raise Unsupported("loop %d at line %d has no sidecar invariant" % (ordinal, s.lineno))
         tag = "loop%d@L%d" % (ordinal, s.lineno)
         is_while = isinstance(s, ast.While)
+        # `for i in itertools.count()`: a loop without a bound of its own -- left only by break/return/raise, needs a measure like `while True`
+        unbounded = (isinstance(s, ast.For) and isinstance(s.iter, ast.Call) and isinstance(s.iter.func, ast.Attribute) and s.iter.func.attr == "count"
+                     and isinstance(s.iter.func.value, ast.Name) and s.iter.func.value.id in ("it", "itertools") and not s.iter.args and not s.iter.keywords
+                     and isinstance(s.target, ast.Name))
         if s.orelse:
             raise Unsupported("loop else-clause at line %d" % s.lineno)
         # 1. establish
@@ -634,7 +673,7 @@ class Executor2(Executor):
             self.oblige(st, inv0, "%s.invariant-established" % tag, None, kind="loop")
         # for loops: evaluate the iterable once (effects / obligations)
         it_val = None
-        if not is_while:
+        if not is_while and not unbounded:
             it_val = self.ev(s.iter, st)
             if it_val.kind not in ("opaque", "tuple", "list_lit") and not self.lenient:
                 raise Unsupported("for over %s at line %d" % (it_val.kind, s.lineno))
@@ -696,12 +735,18 @@ class Executor2(Executor):
             after.append(ex_st)
             body_st = cs.copy()
             body_st.assume(cond)
+        elif unbounded:
+            body_st = head.copy()
+            cnt = self.fresh("int", s.target.id)
+            body_st.assume(cnt.t >= 0)
+            body_st.env[s.target.id] = cnt
         else:
             after.append(head.copy())
             body_st = head.copy()
             # the loop variable
             self.bind_loop_target(body_st, s.target, it_val)
         v0 = None
+        is_while = is_while or unbounded
         if is_while and L.decreases is not None:
             v0 = self.spec_value(L.decreases, body_st, self.old_state, None)
         self.loop_stack.append(tag)
